@@ -367,7 +367,120 @@ def rule_r8(chk):
            f"sum(axis={unparse(ax) if ax is not None else None}) over the trailing (lag) axis", vm.loc(sums[0]), sure=ax is not None)
 
 
+class _Vec:
+    """exact 1-D array with numpy's element-wise arithmetic (for the dummy-observation weights)"""
+    _fin_attrs = ("size", "shape")
+
+    def __init__(self, items):
+        self.items = list(items)
+        self.size = len(self.items)
+        self.shape = (len(self.items),)
+
+    def _zip(self, o, op):
+        if isinstance(o, _Vec):
+            if len(o.items) != len(self.items):
+                raise ValueError("operands could not be broadcast together")
+            return _Vec(op(a, b) for a, b in zip(self.items, o.items))
+        return _Vec(op(a, o) for a in self.items)
+
+    def __mul__(self, o): return self._zip(o, lambda a, b: a * b)
+    __rmul__ = __mul__
+    def __add__(self, o): return self._zip(o, lambda a, b: a + b)
+    __radd__ = __add__
+    def __pow__(self, o): return self._zip(o, lambda a, b: a ** b)
+    def __iter__(self): return iter(self.items)
+    def __len__(self): return len(self.items)
+    def __eq__(self, o): return isinstance(o, _Vec) and self.items == o.items
+    def __repr__(self): return f"{self.items}"
+
+
+def rule_r9(chk, rid="C18-R9"):
+    chk.rule(rid, "Minnesota dummy observations weigh lag l of variable j by mu * std_j * l**kappa in the order of the regressor rows (lag-major: "
+             "all variables at lag 1, then lag 2, ... - C18-R4), and put mu * std_j * rho_j on each variable's own first lag: "
+             "MinnesotaPriorObs.generate_y1 / generate_y0 evaluated finitely with distinct primes for the scales", floor=2, shape_independent=True)
+    from .. import fin
+    m = chk.repo.mod("irispie.red_vars.prior_obs")
+    K, P, KAPPA, MU = 3, 3, 2, 7
+    std = [2, 3, 5]
+    rho = [11, 13, 17]
+    dims = fin.FinObj(num_endogenous=K, order=P, num_exogenous=1, has_intercept=True)
+    funcs = {
+        "Dimensions": lambda *a: dims,
+        "_ensure_array": lambda x, n: _Vec(x) if isinstance(x, (list, tuple)) else x if isinstance(x, _Vec) else _Vec([x] * n),
+        "_np.hstack": lambda parts, **kw: _hstack_any(parts), "_np.concatenate": lambda parts, **kw: _hstack_any(parts),
+        "_np.arange": lambda *a, **kw: _Vec(range(*a)), "_np.array": lambda x, **kw: _Vec(x),
+        "_np.kron": lambda a, b: _Vec(x * y for x in a for y in b), "_np.tile": lambda a, n: _Vec(list(a) * n), "_np.repeat": lambda a, n: _Vec(x for x in a for _ in range(n)),
+        "_np.diag": lambda v, **kw: ("diag", tuple(v)), "_np.zeros": lambda shape, **kw: ("zeros", tuple(shape)), "_np.ones": lambda n, **kw: _Vec([1] * n),
+        "float": lambda x: x,
+    }
+
+    def _hstack_any(parts):
+        parts = list(parts)
+        if all(isinstance(p_, _Vec) for p_ in parts):
+            return _Vec(x for p_ in parts for x in p_)
+        return ("hstack", tuple(parts))
+    me = fin.FinObj(mu=MU, kappa=KAPPA, rho=list(rho))
+    f = m.func("MinnesotaPriorObs.generate_y1")
+    chk.saw(m, "MinnesotaPriorObs.generate_y1")
+    try:
+        got = fin.run_function(f, {params(f)[0]: me, params(f)[1]: ("dims",), params(f)[2]: list(std)}, funcs, env={"float": "float"})
+        want = ("diag", tuple(MU * std[j] * (l ** KAPPA) for l in range(1, P + 1) for j in range(K)))
+        ok = got == want
+        detail = (f"weights {list(got[1]) if isinstance(got, tuple) else got} for mu={MU}, std={std}, kappa={KAPPA}, {P} lags" if ok else
+                  f"weights {list(got[1]) if isinstance(got, tuple) and got[0] == 'diag' else got}, but the regressor rows are lag-major so the weights must be "
+                  f"{list(want[1])} (mu * std_j * l**kappa for l = 1..{P}, j = 1..{K} inside each lag)")
+        chk.ob(rid, "red_vars.prior_obs.MinnesotaPriorObs.generate_y1", ok, detail, m.loc(f), sure=True)
+    except (fin.NotFinite, fin.Raised, TypeError, ValueError, AttributeError) as ex:
+        chk.undecided(rid, "red_vars.prior_obs.MinnesotaPriorObs.generate_y1", f"not finitely evaluable: {type(ex).__name__}: {ex}", m.loc(f))
+    g = m.func("MinnesotaPriorObs.generate_y0")
+    chk.saw(m, "MinnesotaPriorObs.generate_y0")
+    try:
+        got = fin.run_function(g, {params(g)[0]: me, params(g)[1]: ("dims",), params(g)[2]: list(std)}, funcs, env={"float": "float"})
+        want = ("hstack", (("diag", tuple(MU * s_ * r for s_, r in zip(std, rho))), ("zeros", (K, K * (P - 1)))))
+        chk.ob(rid, "red_vars.prior_obs.MinnesotaPriorObs.generate_y0", got == want,
+               f"[diag(mu * std * rho), zeros({K}, {K * (P - 1)})]" if got == want else f"{got} (expected [diag(mu*std*rho), zeros(K, K(p-1))] = {want})", m.loc(g), sure=True)
+    except (fin.NotFinite, fin.Raised, TypeError, ValueError, AttributeError) as ex:
+        chk.undecided(rid, "red_vars.prior_obs.MinnesotaPriorObs.generate_y0", f"not finitely evaluable: {type(ex).__name__}: {ex}", m.loc(g))
+
+
+def rule_r10(chk, rid="C18-R10"):
+    chk.rule(rid, "the impact of exogenous variables B x(t) enters the CURRENT-period block of the companion state (the first n rows, shifts 0 - "
+             "C18-R4) and the lagged blocks get zeros: _simulate_exogenous_impact evaluated finitely with exact matrices", floor=1, shape_independent=True)
+    from .. import fin
+    m = chk.repo.mod("irispie.red_vars._simulators")
+    f = m.func("_simulate_exogenous_impact")
+    chk.saw(m, "_simulate_exogenous_impact")
+    n, p_, T = 2, 3, 4
+    B = fin.FinMat([[2], [3]])
+    data = fin.FinMat([[0] * T, [0] * T, [0] * T, [5, 7, 11, 13]])
+
+    def pad(mat, widths, **kw):
+        (a, b), (c, d) = widths
+        rows = [[0] * (c + len(mat.rows[0]) + d) for _ in range(a)] + [[0] * c + list(r) + [0] * d for r in mat.rows] + \
+               [[0] * (c + len(mat.rows[0]) + d) for _ in range(b)]
+        return fin.FinMat(rows)
+    funcs = dict(fin.MATRIX_FUNCS)
+    funcs["_np.pad"] = pad
+    sysm = fin.FinObj(B=B, num_lagged_endogenous=n * p_, num_endogenous=n, order=p_)
+    model = fin.FinObj(get_system_matrices=lambda: sysm, get_exogenous_qids=lambda: [3], num_endogenous=n, order=p_)
+    ds = fin.FinObj(get_data_variant=lambda *a: data)
+    try:
+        got = fin.run_function(f, {params(f)[0]: model, params(f)[1]: ds}, funcs)
+        rows = [list(r) for r in got.rows]
+    except (fin.NotFinite, fin.Raised, TypeError, AttributeError, IndexError, ValueError) as ex:
+        chk.undecided(rid, "red_vars._simulators._simulate_exogenous_impact", f"not finitely evaluable: {type(ex).__name__}: {ex}", m.loc(f))
+        return
+    want = [[2 * x for x in data.rows[3]], [3 * x for x in data.rows[3]]] + [[0] * T for _ in range(n * (p_ - 1))]
+    ok = rows == want
+    where = [i for i, r in enumerate(rows) if any(r)]
+    chk.ob(rid, "red_vars._simulators._simulate_exogenous_impact", ok,
+           f"B x(t) fills rows 0..{n - 1} of the {n * p_}-row companion state, zeros below" if ok else
+           f"B x(t) lands in rows {where} of the {len(rows)}-row companion state; the current-period block is rows 0..{n - 1} (the other blocks are lags)", m.loc(f), sure=True)
+
+
 def run(chk):
+    chk.guard(rule_r10, chk)
+    chk.guard(rule_r9, chk)
     chk.guard(rule_r1, chk, thorough=(chk.tier == "thorough"))
     chk.guard(rule_r2, chk)
     chk.guard(rule_r3, chk)
